@@ -60,8 +60,9 @@ type Case struct {
 	New        []int     `json:"new"`   // node indexes of the new server set
 	Cols       []ColSpec `json:"cols"`
 	Blobs      []Blob    `json:"blobs"`
-	SyncOrder  []int     `json:"syncOrder"`  // order in which nodes run their start-up sync
-	Concurrent bool      `json:"concurrent"` // all nodes sync at once instead
+	SyncOrder  []int     `json:"syncOrder"`           // order in which nodes run their start-up sync
+	Concurrent bool      `json:"concurrent"`          // all nodes sync at once instead
+	SplitDirs  bool      `json:"splitDirs,omitempty"` // the shard manager's directory differs from the node's root directory
 	Fault      Fault     `json:"fault"`
 }
 
@@ -115,6 +116,7 @@ func genCase(t *rapid.T) Case {
 	}
 	c.SyncOrder = rapid.Permutation(seq(c.Total)).Draw(t, "order")
 	c.Concurrent = rapid.IntRange(0, 3).Draw(t, "concurrent") == 0
+	c.SplitDirs = rapid.IntRange(0, 2).Draw(t, "splitDirs") == 0
 	if rapid.IntRange(0, 2).Draw(t, "fault") == 0 {
 		c.Fault = Fault{Kind: "chunk", Call: rapid.IntRange(1, 4).Draw(t, "fcall"), Chunk: rapid.SampledFrom([]int{-1, 0, 1, 1, 2}).Draw(t, "fchunk")}
 	} else {
@@ -152,12 +154,15 @@ func seq(n int) []int {
 // ---------------------------------------------------------------------------
 
 type env struct {
-	dir   string
-	specs []drive.NodeSpec
-	nodes []*cluster.ClusterNode
+	dir      string
+	shardSub string // sub-directory of the node root that holds the shard files ("" = the node root)
+	specs    []drive.NodeSpec
+	nodes    []*cluster.ClusterNode
 }
 
 func (e *env) root(k int) string { return filepath.Join(e.dir, fmt.Sprintf("node%d", k)) }
+
+func (e *env) shardRoot(k int) string { return filepath.Join(e.root(k), e.shardSub) }
 
 func (e *env) names(idx []int) []string {
 	var s []string
@@ -169,7 +174,7 @@ func (e *env) names(idx []int) []string {
 
 func (e *env) start(idx []int, servers []string) error {
 	for _, k := range idx {
-		n, err := drive.NewClusterNode(e.root(k), e.specs[k], servers, drive.ClusterOpts{MaxShardPointCount: 2, ShardTimeout: 1, RpcTimeout: 20, RpcRetries: 1}, true)
+		n, err := drive.NewClusterNode(e.root(k), e.specs[k], servers, drive.ClusterOpts{MaxShardPointCount: 2, ShardTimeout: 1, RpcTimeout: 20, RpcRetries: 1, ShardSubdir: e.shardSub}, true)
 		if err != nil {
 			return fmt.Errorf("node %d: %v", k, err)
 		}
@@ -209,7 +214,7 @@ func hashFile(p string) (string, int64, error) {
 func (e *env) shardFiles() (map[string][]fileInfo, error) {
 	out := map[string][]fileInfo{} // shard id -> copies
 	for k := range e.specs {
-		base := filepath.Join(e.root(k), cluster.USERCOLSDIR)
+		base := e.root(k) // the whole node root: a shard file written to the wrong place is found as well
 		err := filepath.Walk(base, func(p string, info os.FileInfo, err error) error {
 			if err != nil {
 				if os.IsNotExist(err) {
@@ -283,6 +288,9 @@ func execCase(c Case) (res vt.Result) {
 	dir, cleanup := drive.CaseDir()
 	defer cleanup()
 	e := &env{dir: dir, nodes: make([]*cluster.ClusterNode, c.Total)}
+	if c.SplitDirs {
+		e.shardSub = "shards"
+	}
 	for k := 0; k < c.Total; k++ {
 		host := drive.LoopbackHost(k + 1)
 		e.specs = append(e.specs, drive.NodeSpec{Host: host, Port: drive.FreePort(host)})
@@ -340,7 +348,7 @@ func execCase(c Case) (res vt.Result) {
 	for bi, b := range c.Blobs {
 		var id uuid.UUID
 		id[0], id[1], id[6], id[8], id[15] = 0xb1, byte(bi), 0x40, 0x80, b.Seed
-		p := drive.ShardFile(e.root(c.Old[b.Node]), b.User, b.Col, id.String())
+		p := drive.ShardFile(e.shardRoot(c.Old[b.Node]), b.User, b.Col, id.String())
 		os.MkdirAll(filepath.Dir(p), 0755)
 		if err := os.WriteFile(p, blobBytes(b), 0644); err != nil {
 			return fail("blob: %v", err)
